@@ -60,11 +60,30 @@ def _is_with_delay_of(expr, pname):
     )
 
 
-def _pull_sites(repo, c, entry, tkind="same", depth=0, seen=None):
+def _callee_of(repo, c, f, call):
+    """(name, Func) of a call `self.name(..)` (resolved through the MRO of the concrete class c)
+    or `super().name(..)` (resolved after the class that defines f); (None, None) otherwise."""
+    fn = call.func
+    if not isinstance(fn, ast.Attribute):
+        return None, None
+    name = self_attr(fn)
+    if name is not None:
+        return name, repo.resolve(c, name, "method")
+    v = fn.value
+    if isinstance(v, ast.Call) and isinstance(v.func, ast.Name) and v.func.id == "super" and not v.args and f.cls is not None:
+        mro = list(repo.mro(c))
+        if f.cls in mro:
+            for k in mro[mro.index(f.cls) + 1:]:
+                if fn.attr in k.methods:
+                    return fn.attr, k.methods[fn.attr]
+    return None, None
+
+
+def _pull_sites(repo, c, entry, tkind="same", depth=0, seen=None, func=None):
     """All self.pull_data(T, G) sites reachable from method `entry` of class c through
     self-calls; returns list of dict(func, node, time, target)."""
     seen = seen if seen is not None else set()
-    f = repo.resolve(c, entry)
+    f = func if func is not None else repo.resolve(c, entry)
     if f is None or (f.qualname, tkind) in seen or depth > 4:
         return []
     seen.add((f.qualname, tkind))
@@ -87,14 +106,13 @@ def _pull_sites(repo, c, entry, tkind="same", depth=0, seen=None):
         else:
             gk = "other"
         out.append({"func": f, "node": call, "time": tk, "target": gk})
-    # follow self._xxx(T, G) calls that hand on the time / target parameters
+    # follow self._xxx(T, G) / super()._xxx(T, G) calls that hand on the time / target parameters
     for n in fn_walk(f.node):
         if isinstance(n, ast.Call) and isinstance(n.func, ast.Attribute):
-            name = self_attr(n.func)
-            if name in (None, "pull_data") or name == entry:
+            name, callee = _callee_of(repo, c, f, n)
+            if name in (None, "pull_data") or callee is None or callee is f:
                 continue
-            callee = repo.resolve(c, name, "method")
-            if callee is None or not any(True for _ in self_calls(callee.node, "pull_data")) and not _calls_any_self(callee.node):
+            if not any(True for _ in self_calls(callee.node, "pull_data")) and not _calls_any_self(callee.node):
                 continue
             t = arg_of(n, 0)
             tk = _classify_time_arg(f, t) if t is not None else "other"
@@ -104,7 +122,7 @@ def _pull_sites(repo, c, entry, tkind="same", depth=0, seen=None):
                 tk2 = "delayed"
             else:
                 tk2 = "other"
-            sub = _pull_sites(repo, c, name, tk2, depth + 1, seen)
+            sub = _pull_sites(repo, c, name, tk2, depth + 1, seen, func=callee)
             # the target must be handed on unchanged as 2nd argument for 'forward' to survive
             g = arg_of(n, 1)
             p1 = _param_unchanged(f, 1)
@@ -118,17 +136,25 @@ def _pull_sites(repo, c, entry, tkind="same", depth=0, seen=None):
 
 def _calls_any_self(fn_node):
     for n in fn_walk(fn_node):
-        if isinstance(n, ast.Call) and isinstance(n.func, ast.Attribute) and self_attr(n.func):
-            return True
+        if isinstance(n, ast.Call) and isinstance(n.func, ast.Attribute):
+            if self_attr(n.func):
+                return True
+            v = n.func.value
+            if isinstance(v, ast.Call) and isinstance(v.func, ast.Name) and v.func.id == "super":
+                return True
     return False
 
 
-def _buffer_appends(repo, c, entry="_source_updated"):
-    """`self.<cont>.append((time, self._pack(..)))` sites in the notify path."""
-    f = repo.resolve(c, entry)
+def _buffer_appends(repo, c, entry="_source_updated", func=None, depth=0, seen=None):
+    """`self.<cont>.append((time, self._pack(..)))` sites in the notify path (the method itself and
+    the helpers it reaches through self. / super(). calls that hand on the time)."""
+    seen = seen if seen is not None else set()
+    f = func if func is not None else repo.resolve(c, entry)
     out = []
-    if f is None:
+    if f is None or f.qualname in seen or depth > 4:
         return out
+    seen.add(f.qualname)
+    p0 = _param_unchanged(f, 0)
     for n in fn_walk(f.node):
         if (
             isinstance(n, ast.Call)
@@ -140,6 +166,10 @@ def _buffer_appends(repo, c, entry="_source_updated"):
             and len(n.args[0].elts) == 2
         ):
             payload = n.args[0].elts[1]
+            if isinstance(payload, ast.Name):
+                defs = [x for x in fn_walk(f.node) if isinstance(x, ast.Assign) and any(isinstance(t, ast.Name) and t.id == payload.id for t in x.targets)]
+                if len(defs) == 1:
+                    payload = defs[0].value
             packed = (
                 isinstance(payload, ast.Call)
                 and isinstance(payload.func, ast.Attribute)
@@ -147,6 +177,13 @@ def _buffer_appends(repo, c, entry="_source_updated"):
             )
             out.append({"func": f, "node": n, "container": self_attr(n.func.value),
                         "time": U(n.args[0].elts[0]), "packed": packed})
+        elif isinstance(n, ast.Call) and isinstance(n.func, ast.Attribute):
+            name, callee = _callee_of(repo, c, f, n)
+            if callee is None or callee is f or name in ("pull_data", "_pack", "notify_targets"):
+                continue
+            t = arg_of(n, 0)
+            if p0 is not None and isinstance(t, ast.Name) and t.id == p0:
+                out.extend(_buffer_appends(repo, c, name, callee, depth + 1, seen))
     return out
 
 
